@@ -125,10 +125,18 @@ def binop(it, op, a, b, frame, node):
             return Opaque("str")
         if isinstance(a, int) and isinstance(b, int):
             return a % b
+        if _intlike(a) and isinstance(b, int) and b > 0:
+            return ops.to_term(a) % b  # z3 integer mod: non-negative for a positive modulus, like Python's
         raise Unsupported("mod")
     if isinstance(op, ast.FloorDiv):
         if isinstance(a, int) and isinstance(b, int):
             return a // b
+        if isinstance(b, int) and b > 0:
+            if _intlike(a):
+                return ops.to_term(a) / b  # z3 integer division by a positive constant == floor division
+            if isinstance(a, (Arr, Vec)) and _vec_of(a).kind == "int":
+                va = _vec_of(a)
+                return wrap(Vec(va.n, lambda i: ops.to_term(va.f(i)) / b, "int"))
         raise Unsupported("floordiv")
     if isinstance(op, ast.MatMult):
         from . import matmodel
@@ -138,6 +146,10 @@ def binop(it, op, a, b, frame, node):
         if isinstance(a, int) and isinstance(b, int):
             return a << b
     raise Unsupported(f"binary operator {type(op).__name__}")
+
+
+def _intlike(v):
+    return isinstance(v, int) and not isinstance(v, bool) or (is_sym(v) and z3.is_int(v))
 
 
 def _f32_operands(a, b):
@@ -1368,13 +1380,23 @@ def np_norm(it, v, ord=None, axis=None):
     elif ord is None or ord == 2:
         key = ("norm2", id(vec))
         kind = "2"
+    elif ord == 1:
+        key = ("norm1", id(vec))
+        kind = "1"
     else:
         raise Unsupported(f"norm ord={ord}")
     cache = it.path.ghost.setdefault("__norms__", {})
     if key in cache:
         return cache[key][0]
-    N = fresh_norm_facts(it, vec, kind, "norm" + kind)
+    N = fresh_norm_facts(it, vec, kind if kind != "1" else "2", "norm" + kind)  # 1-norm: same ground facts (>= 0, bounds every component, zero iff all zero)
     cache[key] = (N, vec)
+    if kind == "1":
+        for ok in ("norm2", "norminf"):
+            if (ok, id(vec)) in cache:
+                it.path.assume(cache[(ok, id(vec))][0] <= N)
+        return N
+    if ("norm1", id(vec)) in cache:
+        it.path.assume(N <= cache[("norm1", id(vec))][0])
     # relation between the two norms of the same vector: ||v||inf <= ||v||2
     other = ("norm2" if kind == "inf" else "norminf", id(vec))
     if other in cache:
